@@ -35,6 +35,7 @@ class Plan(object):
         self.step_info = {}     # uid -> step dict (cleanup registration, emits ...)
         self.observers = []     # callables(kind, name, context, arg) for property specific probes
         self.cleanup_seq = 0
+        self.run_index = int(program.get("run_index", 0))
         self.registered_cleanups = []   # (id, owner-layer)
 
 
@@ -137,8 +138,18 @@ def step_definitions(plan):
     def do_convert(context, uid, n):
         enter(context, uid)     # must never be reached: conversion of n fails
 
+    by_outcome = {"pass": do_pass, "fail": do_fail, "raise": do_raise, "pending": do_pending,
+                  "skip": do_skip, "interrupt": do_interrupt}
+
+    def do_act(context, uid):
+        # outcome looked up at call time (repeated runs of the same model objects)
+        info = plan.step_info[uid]
+        acts = info["acts"]
+        by_outcome[acts[plan.run_index % len(acts)]](context, uid)
+
     table = [("passes", do_pass), ("fails", do_fail), ("raises", do_raise),
-             ("pends", do_pending), ("skips", do_skip), ("interrupts", do_interrupt)]
+             ("pends", do_pending), ("skips", do_skip), ("interrupts", do_interrupt),
+             ("acts", do_act)]
     defs = []
     for phrase, func in table:
         defs.append((u"step {uid:w} %s" % phrase, func))
@@ -263,7 +274,7 @@ def run_program(program, formatters=None, reporters=None, features=None, config=
     for feat in program["features"]:
         for steps in _all_step_lists(feat):
             for s in steps:
-                if s.get("cl") or s.get("emit"):
+                if s.get("cl") or s.get("emit") or s.get("acts"):
                     plan.step_info[s["uid"]] = s
     if config is None:
         config = make_config(program.get("cfg") or {})
@@ -278,6 +289,9 @@ def run_program(program, formatters=None, reporters=None, features=None, config=
         runner.formatters = formatters(config) if callable(formatters) else list(formatters)
     if reporters is not None:
         config.reporters = reporters(config) if callable(reporters) else list(reporters)
+    if (program.get("cfg") or {}).get("continue_after_failed"):
+        from behave.model import Scenario
+        Scenario.continue_after_failed_step = True
     if setup:
         setup(runner, plan)
 
@@ -306,6 +320,8 @@ def run_program(program, formatters=None, reporters=None, features=None, config=
         sys.stdout, sys.stderr = old_out, old_err
         root.handlers[:] = old_handlers
         root.setLevel(old_level)
+        from behave.model import Scenario as _Scenario
+        _Scenario.continue_after_failed_step = False
     result.stdout = buf.getvalue()
     result.features = features
     result.texts = texts
